@@ -50,7 +50,7 @@ impl<'a> StateMachine<'a> {
     //@ fn src/handlers/submodule.rs StateMachine::test_submodule_log
     //@| ensures r == is_prefix("Submodule "@, self.line@),  // @C04:a.submodule.log.line.is.claimed.by.its.prefix
     //@ fn src/handlers/submodule.rs StateMachine::handle_submodule_log_line
-    //@| requires get_style_defined(State::SubmoduleLog), srcinv(old(self)),  // @C03:srcinv.assumed
+    //@| requires get_style_defined(State::SubmoduleLog),
     //@| ensures !is_prefix("Submodule "@, old(self).line@) ==> r == Ok::<bool, std::io::Error>(false) && final(self).state == old(self).state && final(self).painter == old(self).painter,  // @C04:submodule.log.decline.changes.nothing
     //@|     r.is_ok() && is_prefix("Submodule "@, old(self).line@) ==> final(self).state == State::SubmoduleLog && all_lines(&final(self).painter) == all_lines(&old(self).painter),  // @C01:submodule.log.line.keeps.lines
     //@|     final(self).line == old(self).line && final(self).config == old(self).config,
